@@ -15,7 +15,30 @@ import (
 // ---- C15: the replicated-log store against a map model (via the verif hook)
 
 func logCoq(l *raft.Log) string {
-	return fmt.Sprintf("(%s,%s,%d%%N,%s)", cq.N(l.Index), cq.N(l.Term), l.Type, coqB(l.Data))
+	// every field of the entry: the payload the model stores is Data ‖ 256 ‖ Extensions (256 is not a byte)
+	p := append([]int{}, bytesToInts(l.Data)...)
+	p = append(p, 256)
+	p = append(p, bytesToInts(l.Extensions)...)
+	return fmt.Sprintf("(%s,%s,%d%%N,%s)", cq.N(l.Index), cq.N(l.Term), l.Type, coqInts(p))
+}
+
+func bytesToInts(b []byte) []int {
+	var x []int
+	for _, y := range b {
+		x = append(x, int(y))
+	}
+	return x
+}
+
+func coqInts(b []int) string {
+	s := "["
+	for i, x := range b {
+		if i > 0 {
+			s += ";"
+		}
+		s += fmt.Sprintf("%d", x)
+	}
+	return s + "]"
 }
 
 func coqB(b []byte) string {
@@ -64,7 +87,7 @@ func raftlogCmd(out *cq.Out, seed uint64, tier string) {
 			out.Violate("C15:"+sig, what, map[string]interface{}{"case": ci, "seed": seed, "ops": hist})
 		}
 		mkLog := func(i uint64) *raft.Log {
-			return &raft.Log{Index: i, Term: uint64(rng.Intn(5)), Type: raft.LogType(rng.Intn(4)), Data: rng.Bytes(rng.Intn(4))}
+			return &raft.Log{Index: i, Term: uint64(rng.Intn(5)), Type: raft.LogType(rng.Intn(4)), Data: rng.Bytes(rng.Intn(4)), Extensions: rng.Bytes(rng.Intn(3))}
 		}
 		bounds := func() (uint64, uint64) {
 			if len(model) == 0 {
@@ -112,7 +135,7 @@ func raftlogCmd(out *cq.Out, seed uint64, tier string) {
 				obs := "None"
 				if err == nil {
 					obs = "(Some " + logCoq(&got) + ")"
-					if !ok || got.Index != want.Index || got.Term != want.Term || got.Type != want.Type || !bytes.Equal(got.Data, want.Data) {
+					if !ok || got.Index != want.Index || got.Term != want.Term || got.Type != want.Type || !bytes.Equal(got.Data, want.Data) || !bytes.Equal(got.Extensions, want.Extensions) {
 						fail("get", fmt.Sprintf("GetLog(%d) returned %+v, stored %+v (present=%v)", i, got, want, ok))
 					}
 				} else if ok {
